@@ -281,7 +281,7 @@ Definition st1 (s : sh) (f : inframe) : sh * bool :=
     end
   else (s, false).
 Definition st2 (f : inframe) (s1 : sh) : sh :=
-  if f_fin f && f_inorder f && negb (rw_closed s1) && negb (tstate_eqb (ts s1) TClosed) then set_rw s1 else s1.
+  if f_inorder f && negb (rw_closed s1) && negb (tstate_eqb (ts s1) TClosed) then set_rw s1 else s1.
 Definition st3 (finnow : bool) (s1 : sh) : sh * bool :=
   if finnow then
     let '(s2, w2) :=
@@ -299,7 +299,7 @@ Definition st4 (f : inframe) (s2 : sh) : sh :=
 Lemma recv_fsm_eq s f :
   recv_fsm s f =
   let '(s1, w1) := st1 s f in
-  let finnow := (f_fin f && rw_closed s) || (f_fin f && f_inorder f && negb (rw_closed s)) in
+  let finnow := (f_fin f && rw_closed s) || (f_inorder f && negb (rw_closed s)) in
   let '(s2, w2) := st3 finnow (st2 f s1) in
   (st4 f s2, w1 || w2).
 Proof.
@@ -328,7 +328,7 @@ Qed.
 Lemma st2_ok f s : TInv s -> TStep s (st2 f s) false.
 Proof.
   intros HT. unfold st2.
-  destruct (f_fin f && f_inorder f && negb (rw_closed s) && negb (tstate_eqb (ts s) TClosed)) eqn:E; [|apply TStep_id; auto].
+  destruct (f_inorder f && negb (rw_closed s) && negb (tstate_eqb (ts s) TClosed)) eqn:E; [|apply TStep_id; auto].
   apply Bool.andb_true_iff in E. destruct E as [_ E]. apply Bool.negb_true_iff in E.
   assert (ts s <> TClosed) by (intros Hx; rewrite Hx in E; discriminate).
   destruct (set_rw_ok s HT) as (A & B & C & D & E').
